@@ -174,3 +174,34 @@ def run(ctx):
         "in argument order with equal records, statistics, times and parameter sets; compared with the model's output; the real cdns-itemcount "
         "(totals and -b) is compared with the independent parse and with the model", diffs, fails)
     return {"diffs": diffs, "fails": fails, "to_script": lambda c: c["script"] + ["inputs(hex): " + ", ".join((x[:60] + "..") if x else "missing" for x in c["inputs"])]}
+
+
+def replay(ctx, rp):
+    """re-create the input files of a stored case, run the real cdns-merge and cdns-itemcount on them and the model of the merge"""
+    if not rp.get("inputs"):
+        print("replay file holds no inputs: %s" % str(rp.get("broken") or rp.get("what"))[:1000]); return 1
+    d = tempfile.mkdtemp(prefix="replay.", dir=common.scratch_root())
+    paths = []
+    for j, hx in zip(rp.get("names") or range(len(rp["inputs"])), rp["inputs"]):
+        p = os.path.join(d, "in%d.cdns" % j)
+        if hx is not None and not os.path.exists(p):
+            with open(p, "wb") as f: f.write(bytes.fromhex(hx))
+        paths.append(p)
+    outp = os.path.join(d, "merged.cdns")
+    env = dict(os.environ); env.update(common.SAN_ENV)
+    pr = subprocess.run([ctx["impl"]["cdns_merge"], "-o", outp] + paths, stdout=subprocess.PIPE, stderr=subprocess.PIPE, env=env, timeout=300)
+    print("== cdns-merge -o merged.cdns %s: exit status %d %s" % (" ".join(os.path.basename(p) for p in paths), pr.returncode, pr.stderr.decode(errors="replace")[-600:]))
+    merged = open(outp, "rb").read() if os.path.exists(outp) else None
+    print("== merged file: %s" % (merged.hex()[:2000] if merged is not None else "none"))
+    bad = pr.returncode != 0
+    if merged:
+        for flags in ([], ["-b"], ["-p"], ["-b", "-p"]):
+            q = subprocess.run([ctx["impl"]["cdns_itemcount"]] + flags + [outp], stdout=subprocess.PIPE, stderr=subprocess.PIPE, env=env, timeout=300)
+            print("== cdns-itemcount %s: exit status %d\n%s" % (" ".join(flags), q.returncode, q.stdout.decode(errors="replace")[:1500]))
+    margs = " ".join("%d:%s" % (j, (hx or "-") if hx is not None else "!") for j, hx in zip(rp.get("names") or range(len(rp["inputs"])), rp["inputs"]))
+    for l in common.run_model_lines(ctx["mdl"], ["MERGE " + margs])[:40]: print("   model: " + l[:300])
+    if merged:
+        for l in common.run_model_lines(ctx["mdl"], ["ICOUNT " + merged.hex()])[:40]: print("   model itemcount: " + l[:300])
+    if rp.get("expected"): print("== expected: %s" % str(rp["expected"])[:1000])
+    shutil.rmtree(d, ignore_errors=True)
+    return 1 if bad else 0
